@@ -56,6 +56,8 @@ type tdProbe struct {
 	dest ro.Observer[int]
 	ctx  context.Context
 	td   func()
+	subd chan struct{} // closed when the probe is subscribed (first time)
+	once sync.Once
 }
 
 func (p *tdProbe) Observable() ro.Observable[int] {
@@ -63,6 +65,9 @@ func (p *tdProbe) Observable() ro.Observable[int] {
 		p.mu.Lock()
 		p.dest, p.ctx = dest, ctx
 		p.mu.Unlock()
+		if p.subd != nil {
+			p.once.Do(func() { close(p.subd) })
+		}
 		return p.td
 	})
 }
@@ -207,8 +212,16 @@ func runTeardownCase(c *Case) string {
 			break
 		}
 		baseline = roGoroutineCounts()
+		p1.subd = make(chan struct{})
 		sub = lo.sub(p1.Observable(), rec)
-		time.Sleep(3 * time.Millisecond) // ToChannel subscribes its source from a goroutine, after 1ms
+		select { // ToChannel subscribes its source from a goroutine, after 1ms
+		case <-p1.subd:
+		case <-time.After(5 * time.Second):
+			return "res " + c.id + " source-never-subscribed"
+		}
+		// let that goroutine register the subscription it just obtained (otherwise our Unsubscribe makes
+		// the registration run the panicking teardown on the library's unrecovered goroutine)
+		time.Sleep(2 * time.Millisecond)
 	case "merge":
 		sub = subAny(ro.Merge(p1.Observable(), p2.Observable()), rec)
 	case "merge3":
